@@ -31,14 +31,16 @@ static void viol(const char *sig, const char *cs, const char *fmt, ...) {
 }
 static void vstr(const int_t *v, int n, char *b, size_t bl) { int o = 0; b[0] = 0; for (int i = 0; i < n && o < (int)bl - 8; i++) o += snprintf(b + o, bl - o, "%s%ld", i ? "," : "", (long)v[i]); }
 
+static int UNSYM;      /* --unsym 1: every full-diagonal pattern, structurally unsymmetric ones included (n(n-1) free entries); the prediction is about A + A^T */
 static void one_case(int n, long bits, int ord)
 {
     int pat[NMAX][NMAX]; memset(pat, 0, sizeof pat); int k = 0; ldc D[NMAX][NMAX];
-    for (int i = 0; i < n; i++) { pat[i][i] = 1; for (int j = i + 1; j < n; j++) { pat[i][j] = pat[j][i] = (int)((bits >> k) & 1); k++; } }
+    if (UNSYM) { for (int i = 0; i < n; i++) for (int j = 0; j < n; j++) { if (i == j) pat[i][j] = 1; else { pat[i][j] = (int)((bits >> k) & 1); k++; } } }
+    else for (int i = 0; i < n; i++) { pat[i][i] = 1; for (int j = i + 1; j < n; j++) { pat[i][j] = pat[j][i] = (int)((bits >> k) & 1); k++; } }
     for (int i = 0; i < n; i++) for (int j = 0; j < n; j++) D[i][j] = i == j ? 2 * n + 1 : 1;
     static tmat_t T; tm_from_dense(&T, n, n, pat, D);
     amat_t am; am_build(&am, &T, 0);
-    char cs[100]; snprintf(cs, sizeof cs, "n=%d bits=%ld ord=%d", n, bits, ord);
+    char cs[100]; snprintf(cs, sizeof cs, "n=%d bits=%ld ord=%d unsym=%d", n, bits, ord, UNSYM);
     superlumt_options_t opt; memset(&opt, 0, sizeof opt);
     int_t perm_c[NMAX + 1], perm_r[NMAX + 1]; SuperMatrix AC;
     opt.nprocs = 1; opt.fact = DOFACT; opt.trans = NOTRANS; opt.refact = NO; opt.panel_size = 1; opt.relax = 1; opt.diag_pivot_thresh = 0; opt.usepr = NO; opt.SymmetricMode = YES;
@@ -95,15 +97,16 @@ int main(int argc, char **argv)
     double deadline = atof(arg_str(argc, argv, "--deadline", "1e9")), t0 = now_s();
     /* the library prints the name of the ordering on stdout: keep our JSON lines clean */
     if (one) { long bits = 0; int ord = 0; const char *p;
-        if ((p = strstr(one, "n="))) n = atoi(p + 2); if ((p = strstr(one, "bits="))) bits = atol(p + 5); if ((p = strstr(one, "ord="))) ord = atoi(p + 4);
+        if ((p = strstr(one, "n="))) n = atoi(p + 2); if ((p = strstr(one, "bits="))) bits = atol(p + 5); if ((p = strstr(one, "ord="))) ord = atoi(p + 4); if ((p = strstr(one, "unsym="))) UNSYM = atoi(p + 6);
         one_case(n, bits, ord); out_stats(PROP, "\"runs\":1,\"violations\":%ld", n_viol); return n_viol ? 1 : 0; }
-    if (n < 1 || n > 8) { fprintf(stderr, "n out of range\n"); return 2; }
-    long npat = 1L << (n * (n - 1) / 2); int complete = 1;
+    if (n < 1 || n > 8 || (arg_int(argc, argv, "--unsym", 0) && n > 5)) { fprintf(stderr, "n out of range\n"); return 2; }
+    UNSYM = arg_int(argc, argv, "--unsym", 0);
+    long npat = 1L << (UNSYM ? n * (n - 1) : n * (n - 1) / 2); int complete = 1;
     for (long bits = isl; bits < npat; bits += nsl) {
         if ((bits & 1023) == 0 && now_s() - t0 > deadline) { complete = 0; break; }
         for (int ord = 0; ord < 4; ord++) if (ordsel < 0 || ordsel == ord) one_case(n, bits, ord);
     }
-    out_stats(PROP, "\"family\":\"symcount\",\"n\":%d,\"slice\":\"%d/%d\",\"complete\":%s,\"runs\":%ld,\"judged\":%ld,\"violations\":%ld,\"distinct_outcomes\":%ld,\"prediction_above_exact\":%ld,\"wall_s\":%.2f",
-              n, isl, nsl, complete ? "true" : "false", n_pat, n_pat, n_viol, n_distinct_tot, n_over, now_s() - t0);
+    out_stats(PROP, "\"family\":\"symcount\",\"unsym\":%d,\"n\":%d,\"slice\":\"%d/%d\",\"complete\":%s,\"runs\":%ld,\"judged\":%ld,\"violations\":%ld,\"distinct_outcomes\":%ld,\"prediction_above_exact\":%ld,\"wall_s\":%.2f",
+              UNSYM, n, isl, nsl, complete ? "true" : "false", n_pat, n_pat, n_viol, n_distinct_tot, n_over, now_s() - t0);
     return 0;
 }
